@@ -76,10 +76,14 @@ theorem same_pid_packets_same_flushes (pm : ProgramMap) (pid : Nat) (s s' : List
     flushesOf pm pid [] s = flushesOf pm pid [] s' := by
   rw [(per_pid pm pid s [] [] rfl).1, (per_pid pm pid s' [] [] rfl).1, h]
 
-/-- the only package-level state besides error sentinels is the byte pool and the (read-only) CRC table -/
+/-- the only package-level STATE is the byte pool: of all package-level variables (`Generated.Facts.packageVars`,
+informative: error sentinels, the CRC table, possibly other lookup tables) it is the only one that is ever written —
+assigned (itself, an element, a field), has its address taken, is appended or copied to, has a pointer-receiver
+method called on it, or (being of reference type) is handed to other code — anywhere outside its own declaration
+(extract/tables.go, `varsWritten`).  A new read-only lookup table does not change this fact; a new variable that is
+written does. -/
 theorem package_state :
-    Generated.Facts.packageVars = ["ErrNoMorePackets", "ErrPCRPIDInvalid", "ErrPESHeaderTooLarge", "ErrPIDAlreadyExists", "ErrPIDNotFound",
-      "ErrPacketMustStartWithASyncByte", "bytesPool", "errSkippedPacket", "tableCRC32"] := by decide
+    Generated.Facts.packageVarsWritten = ["bytesPool"] := by decide
 
 /-! ## C07 at the level of `Demux.NextData` — see `Astits/Props/C07NextData.lean`
 
